@@ -366,6 +366,14 @@ static std::string ukfc(Toks& t) {
     Out o; o.s("ok"); outCorr(o, corr, lik);
     return o.str();
 }
+struct XLin : public LTIMeasurementModel {
+    XLin(const MatrixXd& H, const MatrixXd& R, long ysize) : LTIMeasurementModel(H, R), ysize_(ysize) {}
+    bool freeze(const Data&) override { return true; }
+    std::pair<bool, Data> measure(const Data&) const override { MatrixXd y = fillm(ysize_, 1, 0.4); return std::make_pair(mvalid, Data(std::move(y))); }
+    VectorDescription getInputDescription() const override { return VectorDescription(H_.cols(), 0, R_.rows()); }
+    VectorDescription getMeasurementDescription() const override { return VectorDescription(H_.rows()); }
+    long ysize_; bool mvalid = true;
+};
 // successive correct() + getLikelihood() on ONE correction object (members survive between calls):
 //   b_corrseq kind dl dc quat <meas> [sub reduced] n (K mv pv iv)*
 static std::string corrseq(Toks& t) {
@@ -374,22 +382,40 @@ static std::string corrseq(Toks& t) {
     long sub = 0; bool reduced = false;
     if (kind == 2) { sub = t.nat(); reduced = t.flag(); }
     long n = t.nat();
-    std::vector<long> K(n); std::vector<bool> mv(n), pv(n), iv(n);
-    for (long i = 0; i < n; ++i) { K[i] = t.nat(); mv[i] = t.flag(); pv[i] = t.flag(); iv[i] = t.flag(); }
+    std::vector<long> K(n), msz(n); std::vector<bool> mv(n), pv(n), iv(n);
+    for (long i = 0; i < n; ++i) { K[i] = t.nat(); mv[i] = t.flag(); pv[i] = t.flag(); iv[i] = t.flag(); msz[i] = t.nat(); }
     t.done();
     XMeas* mp = m.get();
+    struct { VectorDescription out_; long prows, irows, ysize; MatrixXd R; } cfg = { mp->out_, mp->prows, mp->irows, mp->ysize, mp->R };   // restored by msz = 0
+    XLin* lp = nullptr;
+    const bool rr_follows = (kind == 2 && !reduced) || kind == 1;
     std::unique_ptr<GaussianCorrection> c;
     if (kind == 0) c.reset(new UKFCorrection(std::unique_ptr<MeasurementModel>(std::move(m)), 1.0, 2.0, 0.0));
     else if (kind == 1) c.reset(new UKFCorrection(std::unique_ptr<AdditiveMeasurementModel>(std::move(m)), 1.0, 2.0, 0.0));
-    else c.reset(new SUKFCorrection(std::unique_ptr<AdditiveMeasurementModel>(std::move(m)), 1.0, 2.0, 0.0, sub, reduced));
+    else if (kind == 2) c.reset(new SUKFCorrection(std::unique_ptr<AdditiveMeasurementModel>(std::move(m)), 1.0, 2.0, 0.0, sub, reduced));
+    else {   // KFCorrection over a linear model H : ml x dim, R : ml x ml (time invariant: msz is ignored)
+        const long hm = mp->out_.total_size(), hn = dl + dc * (quat ? 4 : 1);
+        lp = new XLin(fillm(hm, hn, 1.0), spd(hm, 0.3), mp->ysize);
+        c.reset(new KFCorrection(std::unique_ptr<LinearMeasurementModel>(lp)));
+    }
     Out o; o.s("ok");
     for (long i = 0; i < n; ++i) {
-        mp->mvalid = mv[i]; mp->pvalid = pv[i]; mp->ivalid = iv[i];
+        if (lp) lp->mvalid = mv[i];
+        else {
+            mp->mvalid = mv[i]; mp->pvalid = pv[i]; mp->ivalid = iv[i];
+            if (msz[i] > 0) {   // the model is time varying: another measurement size at this call
+                mp->out_ = vdesc(msz[i], 0, 0, false); mp->prows = msz[i]; mp->irows = msz[i]; mp->ysize = msz[i];
+                mp->R = rr_follows ? spd(msz[i], 0.3) : cfg.R;
+            } else {            // 0: the size the model was configured with
+                mp->out_ = cfg.out_; mp->prows = cfg.prows; mp->irows = cfg.irows; mp->ysize = cfg.ysize; mp->R = cfg.R;
+            }
+        }
         GaussianMixture pred = mkGM(K[i], dl, dc, quat, 0);
         GaussianMixture corr(K[i], dl, dc, quat);
         c->correct(pred, corr);
-        std::pair<bool, VectorXd> lik = c->getLikelihood();
-        o.s(std::to_string(corr.components) + ":" + shpT(corr.mean()) + ":" + (lik.first ? "1" : "0") + ":" + std::to_string(lik.second.size()));
+        std::pair<bool, VectorXd> lik = c->getLikelihood(), lik2 = c->getLikelihood();
+        const bool same = lik.first == lik2.first && lik.second.size() == lik2.second.size();
+        o.s(std::to_string(corr.components) + ":" + shpT(corr.mean()) + ":" + (lik.first ? "1" : "0") + ":" + std::to_string(same ? lik.second.size() : -1));
     }
     return o.str();
 }
@@ -415,14 +441,6 @@ static std::string lm_seq(Toks& t) {
     return o.str();
 }
 
-struct XLin : public LTIMeasurementModel {
-    XLin(const MatrixXd& H, const MatrixXd& R, long ysize) : LTIMeasurementModel(H, R), ysize_(ysize) {}
-    bool freeze(const Data&) override { return true; }
-    std::pair<bool, Data> measure(const Data&) const override { MatrixXd y = fillm(ysize_, 1, 0.4); return std::make_pair(mvalid, Data(std::move(y))); }
-    VectorDescription getInputDescription() const override { return VectorDescription(H_.cols(), 0, R_.rows()); }
-    VectorDescription getMeasurementDescription() const override { return VectorDescription(H_.rows()); }
-    long ysize_; bool mvalid = true;
-};
 static std::string kfc(Toks& t) {
     long K = t.nat(), dl = t.nat(), dc = t.nat(); bool quat = t.flag();
     long cK = t.nat(), cl = t.nat(), cc = t.nat(); bool cq = t.flag();
@@ -811,6 +829,65 @@ static std::string sis(Toks& t) {
     return o.str();
 }
 
+// "a failed call after a successful one, then every getter", on ONE object:
+// b_bootseq dl dc q <meas> n (N mv pv iv)*
+static std::string bootseq(Toks& t) {
+    long dl = t.nat(), dc = t.nat(); bool q = t.flag(); std::unique_ptr<XMeas> m = readMeas(t);
+    long n = t.nat(); std::vector<long> N(n); std::vector<bool> mv(n), pv(n), iv(n);
+    for (long i = 0; i < n; ++i) { N[i] = t.nat(); mv[i] = t.flag(); pv[i] = t.flag(); iv[i] = t.flag(); }
+    t.done();
+    XMeas* mp = m.get();
+    BootstrapCorrection c(std::unique_ptr<MeasurementModel>(std::move(m)), std::unique_ptr<LikelihoodModel>(new GaussianLikelihood()));
+    Out o; o.s("ok");
+    for (long i = 0; i < n; ++i) {
+        mp->mvalid = mv[i]; mp->pvalid = pv[i]; mp->ivalid = iv[i];
+        ParticleSet pred(N[i], dl, dc, q), cor(N[i], dl, dc, q); fillPS(pred);
+        c.correct(pred, cor);
+        std::pair<bool, VectorXd> l1 = c.getLikelihood(), l2 = c.getLikelihood();
+        const bool same = l1.first == l2.first && l1.second.size() == l2.second.size();
+        o.s(std::to_string(cor.components) + ":" + (l1.first ? "1" : "0") + ":" + std::to_string(same ? l1.second.size() : -1));
+    }
+    return o.str();
+}
+// b_gpfcseq d hm n (N mv)*
+static std::string gpfcseq(Toks& t) {
+    long d = t.nat(), hm = t.nat(), n = t.nat(); std::vector<long> N(n); std::vector<bool> mv(n);
+    for (long i = 0; i < n; ++i) { N[i] = t.nat(); mv[i] = t.flag(); }
+    t.done();
+    const long dim = 2 * d;
+    XLin* lp = new XLin(fillm(hm, dim, 1.0), spd(hm, 0.3), hm);
+    std::unique_ptr<GaussianCorrection> kf(new KFCorrection(std::unique_ptr<LinearMeasurementModel>(lp)));
+    GPFCorrection c(std::unique_ptr<LikelihoodModel>(new GaussianLikelihood()), std::move(kf), std::unique_ptr<StateModel>(new WhiteNoiseAcceleration(wdim(d), 1.0, 1.0)));
+    Out o; o.s("ok");
+    for (long i = 0; i < n; ++i) {
+        lp->mvalid = mv[i];
+        ParticleSet pred(N[i], dim), cor(N[i], dim); fillPS(pred);
+        c.correct(pred, cor);
+        std::pair<bool, VectorXd> l1 = c.getLikelihood(), l2 = c.getLikelihood();
+        const bool same = l1.first == l2.first && l1.second.size() == l2.second.size();
+        o.s(std::to_string(cor.components) + ":" + (l1.first ? "1" : "0") + ":" + std::to_string(same ? l1.second.size() : -1));
+    }
+    return o.str();
+}
+// b_eeseq ls cs N n (method full)* : one EstimatesExtraction object, method changed between calls, getInfo() after each
+static std::string eeseq(Toks& t) {
+    long ls = t.nat(), cs = t.nat(), N = t.nat(), n = t.nat(); std::vector<long> meth(n); std::vector<bool> full(n);
+    for (long i = 0; i < n; ++i) { meth[i] = t.nat(); full[i] = t.flag(); }
+    t.done();
+    XExtract e(ls, cs);
+    MatrixXd P = fillm(ls + cs, N);
+    VectorXd w = VectorXd::Constant(N, N > 0 ? -std::log(double(N)) : 0.0); if (N > 0) w(N - 1) += 0.125;
+    VectorXd l = VectorXd::Constant(N, 0.5); MatrixXd tp = MatrixXd::Constant(N, N, 0.25);
+    Out o; o.s("ok");
+    for (long i = 0; i < n; ++i) {
+        e.setMethod(emeth(meth[i]));
+        std::pair<bool, VectorXd> r = full[i] ? e.extract(P, w, w, l, tp) : e.extract(P, w);
+        std::vector<std::string> info = e.getInfo(), info2 = e.getInfo();
+        o.s(std::to_string(r.first ? 1 : 0) + ":" + std::to_string(info == info2 ? r.second.size() : -1));
+    }
+    return o.str();
+}
+
 int main() {
     return vh::run([](const std::string& op, Toks& t, std::string& out) {
         if (op == "b_wna_noise") out = wna_noise(t);
@@ -835,6 +912,9 @@ int main() {
         else if (op == "b_corrseq") out = corrseq(t);
         else if (op == "b_psaddself") out = psaddself(t);
         else if (op == "b_gmaugalias") out = gmaugalias(t);
+        else if (op == "b_bootseq") out = bootseq(t);
+        else if (op == "b_gpfcseq") out = gpfcseq(t);
+        else if (op == "b_eeseq") out = eeseq(t);
         else if (op == "b_linprop") out = linprop(t);
         else if (op == "b_kfp") out = kfp(t);
         else if (op == "b_ukfp") out = ukfp(t);
